@@ -38,6 +38,9 @@ type Rule struct {
 	Prec string   // %prec symbol ref or ""
 	K0   int      // $$ = K0 + sum Coef[i]*$i  (only when the lhs carries a value)
 	Coef []int    // per rhs position (0 for symbols without a value)
+	// Style of the action text: 0 one assignment; 1 "$$ = K0; $$ = $$ + ..." (reads after
+	// the first write); 2 no assignment at all (the value must be the zero value).
+	Style int
 }
 
 type Spec struct {
@@ -130,10 +133,21 @@ func (s *Spec) Finish() *Spec {
 		if r.Coef != nil {
 			continue
 		}
+		defer func(r *Rule) {
+			if r.Style == 2 {
+				r.K0 = 0
+			}
+		}(r)
 		r.K0 = 3 + 2*k
 		r.Coef = make([]int, len(r.Rhs))
+		switch {
+		case k%4 == 2:
+			r.Style = 1
+		case k%5 == 4 && len(r.Rhs) > 0:
+			r.Style = 2
+		}
 		for i, sym := range r.Rhs {
-			if s.tagOf(sym) != "" {
+			if s.tagOf(sym) != "" && r.Style != 2 {
 				r.Coef[i] = []int{2, 3, 5, 7, 11}[(i+k)%5]
 				if (i+k)%3 == 1 {
 					r.Coef[i] = -r.Coef[i]
@@ -149,8 +163,11 @@ func (s *Spec) Action(k int, ts bool) string {
 	r := s.Rules[k-1]
 	var sb strings.Builder
 	fmt.Fprintf(&sb, "{ verifReduce(%d)", k)
-	if s.NTTag[r.Lhs] != "" {
+	if s.NTTag[r.Lhs] != "" && r.Style != 2 {
 		fmt.Fprintf(&sb, "; $$ = %d", r.K0)
+		if r.Style == 1 {
+			sb.WriteString("; $$ = $$")
+		}
 		for i, c := range r.Coef {
 			if c == 0 {
 				continue
@@ -351,6 +368,11 @@ func Fixed() []*Spec {
 	add(&Spec{Name: "sep_d", Tags: []string{"lalr1", "not-slr"},
 		Toks:  []Tok{lit('a'), lit('b'), lit('c'), lit('d')},
 		Rules: rules("S: A 'a' | 'b' A 'c' | 'd' 'c' | 'b' 'd' 'a'", "A: 'd'")})
+	// LALR(1) but not NQLALR(1) (DeRemer & Pennello 1982): follow sets of transitions that
+	// share a target state must not be merged
+	add(&Spec{Name: "nqlalr", Tags: []string{"lalr1", "not-slr", "not-nqlalr"},
+		Toks:  []Tok{lit('a'), lit('b'), lit('c'), lit('d'), lit('g')},
+		Rules: rules("S: 'a' 'g' 'd' | 'a' A 'c' | 'b' A 'd' | 'b' 'g' 'c'", "A: B", "B: 'g'")})
 	add(&Spec{Name: "lr1only", Tags: []string{"lr1only", "conflict-rr"},
 		Toks:  []Tok{lit('a'), lit('b'), lit('c'), lit('d'), lit('e')},
 		Rules: rules("S: 'a' A 'd' | 'b' B 'd' | 'a' B 'e' | 'b' A 'e'", "A: 'c'", "B: 'c'")})
